@@ -105,13 +105,25 @@ func (e *ExchangeJSightSchema) buildContent() error {
 }
 
 func (e *ExchangeJSightSchema) CastToObject() *ExchangeJSightSchema {
+	return e.castToObject(map[string]struct{}{})
+}
+
+// castToObject follows the references between the user types, seen holds the
+// names of the types which have been followed already: a type can refer to
+// itself ("@a // {nullable: true}" is a valid body of the type @a).
+func (e *ExchangeJSightSchema) castToObject(seen map[string]struct{}) *ExchangeJSightSchema {
 	switch e.ASTNode.TokenType {
 	case "object":
 		return e
 	case "reference":
+		if _, ok := seen[e.ASTNode.Value]; ok {
+			return nil
+		}
+		seen[e.ASTNode.Value] = struct{}{}
+
 		if ut, ok := e.catalogUserTypes.Get(e.ASTNode.Value); ok {
 			if ee, ok := ut.Schema.(*ExchangeJSightSchema); ok {
-				return ee.CastToObject()
+				return ee.castToObject(seen)
 			} else {
 				return nil
 			}
